@@ -29,6 +29,7 @@ package hx
 
 import (
 	"bufio"
+	"bytes"
 	"context"
 	"encoding/json"
 	"fmt"
@@ -36,6 +37,7 @@ import (
 	"os"
 	"path/filepath"
 	"sort"
+	"strconv"
 	"strings"
 	"time"
 
@@ -534,6 +536,69 @@ func (c *c11Env) exec(op map[string]interface{}) (map[string]interface{}, map[st
 		}
 		_, serr := os.Stat(filepath.Join(c.workDir, "jobs", strings.ToLower(j.graph), j.id))
 		return op, map[string]interface{}{"ok": true, "dir": serr == nil}
+
+	case "crashcopy":
+		// what a crash would leave: `rounds` jobs are submitted, polled without a pause, and at the
+		// FIRST poll that reads COMPLETE the job's directory is looked at as a restart would find it —
+		// the status file must parse (NewFSJobStorage skips one that does not), say COMPLETE with the
+		// count the client was told, and the results file must hold that many lines
+		graph := c.graphName(op)
+		stmts, err := StmtsFromJSON(c11List(op["q"]))
+		if err != nil {
+			return op, c11Skip("decode")
+		}
+		rounds := 100
+		if f, ok := op["rounds"].(float64); ok && f >= 1 {
+			rounds = int(f)
+		} else if n, ok := op["rounds"].(int); ok && n >= 1 {
+			rounds = n
+		}
+		lost := 0
+		why := ""
+		for i := 0; i < rounds; i++ {
+			job, serr := c.srv.Submit(context.Background(), &gripql.GraphQuery{Graph: graph, Query: stmts})
+			if serr != nil {
+				return op, map[string]interface{}{"err": "compile"}
+			}
+			deadline := time.Now().Add(c11Deadline)
+			var st *gripql.JobStatus
+			for {
+				s1, gerr := c.srv.GetJob(context.Background(), &gripql.QueryJob{Graph: graph, Id: job.Id})
+				if gerr == nil && s1.State == gripql.JobState_COMPLETE {
+					st = s1
+					break
+				}
+				if time.Now().After(deadline) {
+					return op, map[string]interface{}{"timeout": "complete"}
+				}
+			}
+			dir := filepath.Join(c.workDir, "jobs", strings.ToLower(graph), job.Id)
+			sb, _ := os.ReadFile(filepath.Join(dir, "status"))
+			rb, _ := os.ReadFile(filepath.Join(dir, "results"))
+			var onDisk struct {
+				Status struct {
+					State interface{} `json:"state"`
+					Count interface{} `json:"count"`
+				}
+			}
+			bad := ""
+			if jerr := json.Unmarshal(sb, &onDisk); jerr != nil {
+				bad = "status file does not parse (" + strconv.Itoa(len(sb)) + " bytes)"
+			} else if fmt.Sprint(onDisk.Status.State) != "2" && fmt.Sprint(onDisk.Status.State) != "COMPLETE" {
+				bad = "status file says state " + fmt.Sprint(onDisk.Status.State)
+			} else if lines := uint64(bytes.Count(rb, []byte("\n"))); lines != st.Count {
+				bad = fmt.Sprintf("results file holds %d lines, the client was told %d", lines, st.Count)
+			}
+			if bad != "" {
+				lost++
+				why = bad
+			}
+			c.srv.DeleteJob(context.Background(), &gripql.QueryJob{Graph: graph, Id: job.Id})
+		}
+		if lost > 0 {
+			return op, map[string]interface{}{"lost": lost, "why": why}
+		}
+		return op, map[string]interface{}{"lost": 0}
 
 	case "restart":
 		if err := c.newServer(); err != nil {
@@ -1086,6 +1151,25 @@ func (g *c11Gen) caseTypesRestart() {
 // caseSearchMaps: jobs whose statements carry multi-key maps (a render template, a has-condition
 // with a map value, several aggregations) must be found by Search like any other — every time:
 // the per-statement checksum has to be a function of the statement, not of a map iteration order.
+// caseCrashCopy: what is on disk at the moment a client first reads COMPLETE must already be a
+// complete job (a crash there is followed by a restart that reads exactly that).  The query carries
+// thousands of ids: the job's metadata takes a while to serialise, which is the window.
+func (g *c11Gen) caseCrashCopy() {
+	r := g.r.Rng
+	g.reset(c11Named("A", c01Graph(r, 1)))
+	ids := []interface{}{"v1", "v2"}
+	for i := 0; i < 3000; i++ {
+		ids = append(ids, fmt.Sprintf("absent-vertex-%06d", i))
+	}
+	rounds := 60
+	if g.r.Tier == "thorough" {
+		rounds = 400
+	}
+	g.do(map[string]interface{}{"op": "crashcopy", "graph": "A", "q": c11Ifaces([]c11Stmt{{"v": ids}}), "rounds": rounds})
+	g.do(map[string]interface{}{"op": "crashcopy", "graph": "A", "q": c11Ifaces([]c11Stmt{{"v": sl()}, {"out": sl()}}), "rounds": rounds})
+	g.r.Count("crashcopy")
+}
+
 func (g *c11Gen) caseSearchMaps() {
 	r := g.r.Rng
 	g.reset(c11Named("A", c01Graph(r, 1)), c11Named("B", c01Graph(r, 2)))
@@ -1139,6 +1223,7 @@ func c11GenMain(r *Run) {
 	g.caseMarkTypes()
 	g.caseTypesRestart()
 	g.caseSearchMaps()
+	g.caseCrashCopy()
 
 	// 2. every split point of generated traversals, every result type
 	nsplit := 6
